@@ -53,6 +53,7 @@ type RunCtx struct {
 	Sample     any
 	Nontrivial bool
 	Det        []string // extra deterministic event log lines (compared by the determinism self-check)
+	RaceFlag   bool     // the run's sub-test was failed by the race detector (leg B)
 	Cases      int      // worlds that run several small cases per index report how many (0 = one)
 	CaseHashes []string // hashes of the distinct non-trivial cases of this index
 }
@@ -137,6 +138,8 @@ type RunResult struct {
 	WallMicros int64            `json:"wall_us"`
 	DetHash    string           `json:"det"`
 	TapeLen    [3]int           `json:"tape_len"`
+	RaceFlag   bool             `json:"race_flag,omitempty"`
+	RaceLogOff int64            `json:"race_log_off,omitempty"`
 	Cases      int              `json:"cases,omitempty"`
 	CaseHashes []string         `json:"case_hashes,omitempty"`
 }
@@ -177,7 +180,10 @@ func runOne(t *testing.T, prop string, index, seed uint64, tape *simrt.Tape, mod
 	}
 	rc := &RunCtx{T: t, Prop: prop, Index: index, Seed: seed, Tape: tape, Dir: dir, Mode: mode, Faults: faults, Trace: trace,
 		Tier: os.Getenv("SIM_TIER"), Probes: map[string]int64{}, Fired: map[string]int64{}, EndReasons: map[string]int{}}
-	func() {
+	// every run gets its own sub-test T: a T that failed (the race detector fails it) would stop later
+	// synctest.Test calls from running
+	t.Run("r", func(st *testing.T) {
+		rc.T = st
 		defer func() {
 			if r := recover(); r != nil {
 				// a panic of the world itself (outside any bubble) is harness trouble unless the world turned it
@@ -186,7 +192,8 @@ func runOne(t *testing.T, prop string, index, seed uint64, tape *simrt.Tape, mod
 			}
 		}()
 		w(rc)
-	}()
+		rc.RaceFlag = st.Failed()
+	})
 	os.Chdir(origWD)
 	return rc
 }
@@ -207,7 +214,7 @@ func (rc *RunCtx) result(wall time.Duration) *RunResult {
 	return &RunResult{Prop: rc.Prop, Index: rc.Index, Seed: rc.Seed, Faults: rc.Faults, Mode: rc.Mode, Viol: rc.Viol, Steps: rc.Steps, Multi: rc.Multi,
 		Bubbles: rc.Bubbles, SimNanos: rc.SimNanos, Hash: strconv.FormatUint(rc.Hash, 16), Probes: rc.Probes, Fired: rc.Fired, EndReasons: rc.EndReasons,
 		Sample: rc.Sample, Nontrivial: rc.Nontrivial, WallMicros: wall.Microseconds(), DetHash: strconv.FormatUint(h, 16),
-		TapeLen: [3]int{rc.Tape.Used(0), rc.Tape.Used(1), rc.Tape.Used(2)}, Cases: rc.Cases, CaseHashes: rc.CaseHashes}
+		TapeLen: [3]int{rc.Tape.Used(0), rc.Tape.Used(1), rc.Tape.Used(2)}, Cases: rc.Cases, CaseHashes: rc.CaseHashes, RaceFlag: rc.RaceFlag}
 }
 
 func envInt(name string, def int64) int64 {
@@ -396,7 +403,12 @@ func TestSim(t *testing.T) {
 			panic("replay file is for " + rf.Property)
 		}
 		t0 := time.Now()
-		rc := runOne(t, prop, rf.Index, rf.Seed, simrt.ReplayTape(rf.Seed, rf.Streams), rf.Mode, rf.Faults, true)
+		tape := simrt.ReplayTape(rf.Seed, rf.Streams)
+		if rf.Mode == simrt.ModeFree {
+			// leg B replays re-generate the run from its seed (the interleaving is the real scheduler's)
+			tape = simrt.NewTape(rf.Seed)
+		}
+		rc := runOne(t, prop, rf.Index, rf.Seed, tape, rf.Mode, rf.Faults, rf.Mode != simrt.ModeFree)
 		r := rc.result(time.Since(t0))
 		emit(r)
 		for _, v := range rc.Viol {
@@ -404,6 +416,11 @@ func TestSim(t *testing.T) {
 		}
 		if len(rc.Viol) == 0 {
 			fmt.Println("REPLAY-CLEAN")
+		}
+		if os.Getenv("SIM_PRINT_TRACE") != "" {
+			for _, l := range rc.TraceLog {
+				fmt.Println("TRACE", l)
+			}
 		}
 		return
 	}
@@ -467,6 +484,14 @@ func TestSim(t *testing.T) {
 		tape := simrt.NewTape(seed)
 		rc := runOne(t, prop, i, seed, tape, mode, faultsOf(i), false)
 		r := rc.result(time.Since(t0))
+		if mode == simrt.ModeFree {
+			// size of the race detector's log after this run: the driver attributes reports by offset
+			if fs, _ := filepath.Glob(os.Getenv("SIM_OUT") + ".race*"); len(fs) > 0 {
+				if st, err := os.Stat(fs[0]); err == nil {
+					r.RaceLogOff = st.Size()
+				}
+			}
+		}
 		if det && mode == simrt.ModeSched {
 			rc2 := runOne(t, prop, i, seed, simrt.NewTape(seed), mode, faultsOf(i), false)
 			r2 := rc2.result(0)
